@@ -55,6 +55,7 @@ type Obligation struct {
 	Result  *SolverResult
 	Query   string
 	regexPattern, regexSpec string
+	Vacuity bool // a cover whose unsat is a failed obligation (vacuous clause)
 	Cover   bool // reachability query: premises and the path condition must be satisfiable (expected sat)
 }
 
@@ -865,4 +866,13 @@ func (e *enc) cover(label string, pos token.Pos) {
 		o.Pos = fmt.Sprintf("%s:%d", strings.TrimPrefix(p.Filename, e.v.repo+"/"), p.Line)
 	}
 	e.covers = append(e.covers, o)
+}
+
+// coverVac: a cover whose unsatisfiability is a failed obligation (a clause whose antecedent can never hold states nothing).
+func (e *enc) coverVac(label string, props []string, src string, pos token.Pos) {
+	e.cover(label, pos)
+	o := e.covers[len(e.covers)-1]
+	o.Vacuity = true
+	o.Props = props
+	o.Src = "antecedent satisfiable (vacuity guard) of: " + src
 }
